@@ -13,7 +13,7 @@
     ping|pong <nonce>
     reject <messagehex> <ccodehex> <reasonhex>
   Ops:
-    c18.frame  <chain> <msg>        → `W:`|`O:` then hex of to_bytes() | err:<family>; W = the message is in the
+    c18.frame  <chain> <msg>        → hex of to_bytes() | err:<family>, then `|W` or `|O`; W = the message is in the
                                       property's domain (WFMsg and a payload ≤ MAX_SIZE), O = outside
     c18.spec.frame <chain> <msg>    → hex of Spec.Msg.frameMsg
     c18.parse  <chain> <hexstream> [<pv>] (pv = the `protover` handed to stream_deserialize, default 60002) → `pos@msg@reframe~…` then `~eof` or `~err:<family>@pos`;
@@ -21,7 +21,7 @@
                                       unknown command, reframe = same | diff | err:<family>: whether
                                       to_bytes() of the parsed message equals the bytes consumed
                                       an error raised inside msg_deser is `err:<family>@pos@payload`
-    c18.frombytes <chain> <hex>     → `W:`|`O:` then msg | none | err:<family>   (W = canonical frame of the
+    c18.frombytes <chain> <hex>     → msg | none | err:<family>, then `|W` or `|O`   (W = canonical frame of the
                                       message returned, or a frame-level rejection; O = anything else)
     c18.magic  <chain>              → hex
     c18.hist   <step> <step> …      → outputs of the steps joined by `~` (see "histories" below)
@@ -167,6 +167,12 @@ def parseReport (magic : Bytes) (pv : Nat) (s : Bytes) : String :=
     N <reg>#<msg>#<variant>        a new message object with these field values
     E <reg>#<edit>#<msg>           an in-place edit of the live object; <msg> = the field values after it
     F <reg>                        to_bytes()                          → hex | err:<family> | noreg
+    M <reg>                        msg_ser into a BytesIO (the payload)   → hex | err:<family> | noreg
+    Z <reg>                        serialize()  (= to_bytes)              → hex | …
+    G <reg>                        GetHash()    (SHA-256d of to_bytes)    → hex | …
+    R <reg>                        repr()       (no output: only that the observer ran on the object)
+    Q <reg> <reg>                  ==           (equal iff the frames are equal) → eq | ne
+    X <sid> <hex>                  a new stream holding these raw bytes → len=<n>
     S <sid> <reg>*                 a new stream holding the frames of these registers → len=<n>
     A <sid> <reg>                  append the frame of <reg> to the stream (position kept) → len=<n>
     P <sid> <reg> [<pv>]           stream_deserialize(f, protover=pv) on the stream (default PROTO_VERSION);
@@ -217,6 +223,32 @@ def histStep (st : HState) (step : String) : Option HState :=
              | none => "noreg"
              | some res => Res.render (res.map toHex)
            some { st with out := o :: st.out }
+       | ["M", r] =>
+           let o := match st.regs.lookup r with
+             | none => "noreg"
+             | some m => Res.render ((Model.Msg.msgSer m).map toHex)
+           some { st with out := o :: st.out }
+       | ["Z", r] =>
+           let o := match frameOf st r with
+             | none => "noreg"
+             | some res => Res.render (res.map toHex)
+           some { st with out := o :: st.out }
+       | ["G", r] =>
+           let o := match frameOf st r with
+             | none => "noreg"
+             | some res => Res.render (res.map (fun b => toHex (Crypto.hash256 b)))
+           some { st with out := o :: st.out }
+       | ["R", _] => some st
+       | ["Q", r1, r2] =>
+           let o := match frameOf st r1, frameOf st r2 with
+             | some (.ok a), some (.ok b) => if a = b then "eq" else "ne"
+             | none, _ => "noreg"
+             | _, none => "noreg"
+             | _, _ => "err"
+           some { st with out := o :: st.out }
+       | ["X", sid, hex] =>
+           (parseHex? hex).map (fun b => { st with streams := setKey sid (b.length, b) st.streams,
+                                                   out := s!"len={b.length}" :: st.out })
        | "S" :: sid :: rs =>
            let bytes := rs.foldl (fun acc r => match frameOf st r with
              | some (.ok b) => acc ++ b
@@ -245,9 +277,9 @@ def fromBytesReport (magic : Bytes) (pv : Nat) (s : Bytes) : String :=
       let canonical := match Model.Msg.toBytes magic m with
         | .ok b => b == s.take b.length
         | .error _ => false
-      (if canonical then "W:" else "O:") ++ showMsg m
-  | .ok none => "O:none"
-  | .error e => (if Model.Msg.frameAccepted magic s then "O:" else "W:") ++ "err:" ++ e.family
+      showMsg m ++ (if canonical then "|W" else "|O")
+  | .ok none => "none|O"
+  | .error e => "err:" ++ e.family ++ (if Model.Msg.frameAccepted magic s then "|O" else "|W")
 
 def handle (op : String) (args : List String) : Option String :=
   match op, args with
@@ -255,7 +287,7 @@ def handle (op : String) (args : List String) : Option String :=
   | "c18.frame", [chain, msg] => some <|
       match magicOf? chain, parseMsg? msg with
       | some magic, some m =>
-          (if inDomain m then "W:" else "O:") ++ Res.render ((Model.Msg.toBytes magic m).map toHex)
+          Res.render ((Model.Msg.toBytes magic m).map toHex) ++ (if inDomain m then "|W" else "|O")
       | _, _ => badArgs
   | "c18.spec.frame", [chain, msg] => some <|
       match magicOf? chain, parseMsg? msg with
